@@ -231,6 +231,36 @@ func acInvalidUTF8(add func(in interface{})) {
 	add(c)
 }
 
+// acAllMultibyte: a pattern field whose keywords are ALL multi-byte, probed with texts that have fewer characters than
+// the shortest keyword has bytes (and still contain it), and with long texts; include and exclude; with collector
+func acAllMultibyte(add func(in interface{})) {
+	kw := func(inc bool, ss ...string) eExpr {
+		l := make([]TV, len(ss))
+		for i, s := range ss {
+			l[i] = tvStr(s)
+		}
+		return eExpr{F: 1, Inc: inc, V: tvSlice("[]string", l...)}
+	}
+	num := func(v int64) eExpr { return eExpr{F: 0, Inc: true, V: tvSlice("[]int", tvInt("int", v))} }
+	docs := []eDoc{
+		{ID: 7, Cons: []eConj{{kw(true, "红包"), num(1)}, {kw(true, "优惠券")}}},
+		{ID: 8, Cons: []eConj{{kw(false, "色情")}, {kw(true, "红包", "抢"), num(2)}}},
+		{ID: 9, Cons: []eConj{{kw(true, "优惠券", "色情片")}}},
+	}
+	var qs []eQuery
+	for _, t := range []string{"发红包", "抢红包", "领优惠券", "红包", "色情片", "色", "包", "今天发红包和优惠券给大家", "没有关键词的长文本", "", "色情"} {
+		qs = append(qs, eQuery{A: []eAssign{{F: 1, V: tvStr(t)}}}, eQuery{A: []eAssign{{F: 1, V: tvStr(t)}, {F: 0, V: tvInt("int", 1)}}}, eQuery{A: []eAssign{{F: 1, V: tvSlice("[]string", tvStr("领"), tvStr(t))}, {F: 0, V: tvInt("int", 2)}}})
+	}
+	for _, kind := range []string{"kgroups", "compact"} {
+		add(eCase{Kind: kind, Policy: "error", Configs: map[int]string{1: "ac_matcher"}, Docs: docs, Queries: qs})
+	}
+	c := rCase{Fields: []rField{{F: 0, Cont: "default"}, {F: 1, Cont: "ac_matcher"}}, Docs: docs}
+	for i, q := range qs {
+		c.Ops = append(c.Ops, rOp{S: 0, Op: "reset"}, rOp{S: 0, Op: []string{"retrieve", "docs"}[i%2], A: q.A}, rOp{S: 0, Op: "raw"})
+	}
+	add(c)
+}
+
 func init() {
 	props["C05"] = &propDef{
 		header:    "From BE Require Import Corr.CheckC05.",
@@ -244,6 +274,7 @@ func init() {
 			}
 			acSeparatorCorner(add)
 			acInvalidUTF8(add)
+			acAllMultibyte(add)
 			for i := 0; i < n; i++ {
 				acTwoPatternFields = i%4 == 1 || i%4 == 3 // two pattern fields: each must keep its own keywords
 				docs, qs := acDocsQueries(r, i%2 == 0)
